@@ -62,6 +62,9 @@ func genC29(seed uint64, tier string) any {
 	sc.Timestamp = r.Bool()
 	sc.SessionID = r.Bytes([]int{0, 0, 1, 16, 32}[r.Intn(5)])
 	n := r.Range(1, 12)
+	if r.Chance(1, 12) {
+		n = []int{127, 128, 129, 130, 200, 255, 256, 300}[r.Intn(8)] // list lengths around the one-byte boundaries of the length prefix
+	}
 	for i := 0; i < n; i++ {
 		sc.Suites = append(sc.Suites, fpImplementedSuites[r.Intn(len(fpImplementedSuites))])
 	}
@@ -73,7 +76,7 @@ func genC29(seed uint64, tier string) any {
 	if r.Chance(1, 3) {
 		sc.Second = dnsNameOfLen([]int{9, 20, 63, 100, 253}[r.Intn(5)])
 	}
-	kinds := []string{"null", "sni", "sni_auto", "alpn", "reneg", "ems", "status", "sct", "curves", "points", "ticket", "ticket_auto", "sigalgs"}
+	kinds := []string{"null", "sni", "sni_auto", "alpn", "reneg", "ems", "status", "sct", "curves", "points", "ticket", "ticket_auto", "sigalgs", "ticket_auto_preset"}
 	ne := r.Range(0, 9)
 	used := map[string]bool{}
 	for i := 0; i < ne; i++ {
@@ -82,7 +85,7 @@ func genC29(seed uint64, tier string) any {
 		if k == "sni_auto" {
 			base = "sni"
 		}
-		if k == "ticket_auto" {
+		if k == "ticket_auto" || k == "ticket_auto_preset" {
 			base = "ticket"
 		}
 		if used[base] && k != "null" {
@@ -106,7 +109,9 @@ func genC29(seed uint64, tier string) any {
 				e.U16 = append(e.U16, allCurves[j])
 			}
 		case "points":
-			e.Bytes = []byte{0}
+			e.Bytes = [][]byte{{0}, {0}, {0, 0}, {0, 0, 0}}[r.Intn(4)] // only the uncompressed format is implemented; the list length is free
+		case "ticket_auto_preset":
+			e.Bytes = r.Bytes([]int{1, 40, 200}[r.Intn(3)])
 		case "ticket":
 			e.Bytes = r.Bytes([]int{0, 1, 48, 200, 255, 256, 257, 1000}[r.Intn(8)])
 		case "sigalgs":
@@ -189,7 +194,8 @@ func refExt(e fpExt, cfgServerName string) []byte {
 		return tlv(10, v16(l))
 	case "points":
 		return tlv(11, append([]byte{byte(len(e.Bytes))}, e.Bytes...))
-	case "ticket":
+	case "ticket", "ticket_auto_preset":
+		// (autopopulation replaces the configured ticket only when a cached session exists)
 		return tlv(35, e.Bytes)
 	case "ticket_auto":
 		return nil // without a cached session the autopopulated ticket extension is dropped
@@ -229,6 +235,8 @@ func buildExt(e fpExt) tls.ClientExtension {
 		return &tls.SessionTicketExtension{Ticket: e.Bytes}
 	case "ticket_auto":
 		return &tls.SessionTicketExtension{Autopopulate: true}
+	case "ticket_auto_preset":
+		return &tls.SessionTicketExtension{Ticket: e.Bytes, Autopopulate: true}
 	case "sigalgs":
 		return &tls.SignatureAlgorithmExtension{SignatureAndHashes: e.U16}
 	}
